@@ -943,9 +943,99 @@ Qed.
 (* ---- the truncation bound (from the C10 model of truncate_singular_values) -------------------------------- *)
 From PTN Require Trunc.Select Trunc.SelectProofs.
 Theorem bond_bounded (p : Select.params) (s : list QArith_base.Q) (m : nat) :
-  s <> [] -> Select.descending s -> Select.bond_ok (Select.max_bond p) -> Select.max_bond p = Select.BFin m ->
+  s <> [] -> SelectProofs.descending s -> SelectProofs.bond_ok (Select.max_bond p) -> Select.max_bond p = Select.BFin m ->
   1 <= length (fst (Select.select p s)) <= m /\ length (fst (Select.select p s)) <= length s.
 Proof.
   intros Hs Hd Hb Hm. destruct (SelectProofs.select_spec p s Hs Hd Hb) as ((H1 & H2) & _ & _ & H3).
   specialize (H3 m Hm). lia.
+Qed.
+
+Lemma NoDup_app_l {A} (a b : list A) : NoDup (a ++ b) -> NoDup a.
+Proof. induction a as [|x t IH]; intros H; [constructor|]. cbn in H. inversion H; subst. constructor; [|auto]. intros Hi. apply H2. apply in_or_app. left. exact Hi. Qed.
+Lemma NoDup_app_r {A} (a b : list A) : NoDup (a ++ b) -> NoDup b.
+Proof. induction a as [|x t IH]; intros H; [exact H|]. cbn in H. inversion H; subst. auto. Qed.
+
+(* ---- split_nodes: who else changes -------------------------------------------------------------------------- *)
+Lemma risn_hit new old : forall ns l l' x xn, NoDup ns -> In x ns ->
+  replace_in_some_neighbours l new old ns = Some l' -> aget x l = Some xn ->
+  exists xn', replace_neighbour xn old new = Some xn' /\ aget x l' = Some xn'.
+Proof.
+  induction ns as [|h t IH]; intros l l' x xn Hnd Hin H Hx; [destruct Hin|].
+  inversion Hnd as [|? ? Hnh Hnd']; subst. rewrite risn_unfold in H. cbn in H.
+  destruct (aget h l) as [hn|] eqn:Eh; [|rewrite risn_none in H; discriminate].
+  destruct (replace_neighbour hn old new) as [hn'|] eqn:Er; [|rewrite risn_none in H; discriminate].
+  rewrite <- risn_unfold in H. destruct Hin as [->|Hin].
+  - rewrite Hx in Eh. injection Eh as <-. exists hn'. split; [exact Er|].
+    rewrite (risn_other _ _ _ _ _ _ H Hnh). apply aget_aset_same.
+  - apply (IH _ _ x xn Hnd' Hin H). rewrite aget_aset_other; [exact Hx|]. intros ->. contradiction.
+Qed.
+
+(* the split rewires exactly the neighbours the two specifications name — each one's pointer to
+   the old node becomes a pointer to the new node on its side — and changes no other node *)
+Theorem split_nodes_neighbours s n o i oid iid kind m rb s' :
+  split_nodes s n o i oid iid kind m rb = Some s' ->
+  n <> oid -> n <> iid ->
+  NoDup (find_all_neighbour_ids o ++ find_all_neighbour_ids i) ->
+  ~ In n (find_all_neighbour_ids o ++ find_all_neighbour_ids i) ->
+  ~ In oid (find_all_neighbour_ids o ++ find_all_neighbour_ids i) ->
+  ~ In iid (find_all_neighbour_ids o ++ find_all_neighbour_ids i) ->
+  (forall x xn, In x (find_all_neighbour_ids o) -> aget x (nodes s) = Some xn ->
+     exists xn', replace_neighbour xn n oid = Some xn' /\ aget x (nodes s') = Some xn') /\
+  (forall x xn, In x (find_all_neighbour_ids i) -> aget x (nodes s) = Some xn ->
+     exists xn', replace_neighbour xn n iid = Some xn' /\ aget x (nodes s') = Some xn') /\
+  (forall k, k <> n -> k <> oid -> k <> iid -> ~ In k (find_all_neighbour_ids o ++ find_all_neighbour_ids i) ->
+     aget k (nodes s') = aget k (nodes s)).
+Proof.
+  intros H Hno Hni Hnd Hn Hoid Hiid.
+  unfold split_nodes in H.
+  destruct (access s n) as [[[s1 nd] t]|] eqn:Hacc; [|discriminate].
+  destruct (find_leg_values nd o) as [ol|]; [|discriminate].
+  destruct (find_leg_values nd i) as [il|]; [|discriminate].
+  match type of H with (if ?c then None else _) = _ => destruct c; [discriminate|] end.
+  destruct (Nat.eqb_spec oid iid) as [|Hoi]; [discriminate|].
+  match type of H with (if ?c then None else _) = _ => destruct c; [discriminate|] end.
+  match type of H with (let '(_, _) := ?e in _) = _ => destruct e as [s2 bw] eqn:Hfw end.
+  unfold fresh_atom in H. cbv beta iota zeta in H.
+  repeat match type of H with (if ?c then None else _) = _ => destruct c; [discriminate|] end.
+  match type of H with match ?e with Some _ => _ | None => None end = _ => destruct e as [in1|] eqn:Hin1; [|discriminate] end.
+  match type of H with match ?e with Some _ => _ | None => None end = _ => destruct e as [in2|] eqn:Hin2; [|discriminate] end.
+  match type of H with match ?e with Some _ => _ | None => None end = _ => destruct e as [on1|] eqn:Hon1; [|discriminate] end.
+  match type of H with match ?e with Some _ => _ | None => None end = _ => destruct e as [on2|] eqn:Hon2; [|discriminate] end.
+  match type of H with match ?e with Some _ => _ | None => None end = _ => destruct e as [l1|] eqn:Hl1; [|discriminate] end.
+  match type of H with match ?e with Some _ => _ | None => None end = _ => destruct e as [l2|] eqn:Hl2; [|discriminate] end.
+  destruct (Nat.eqb_spec n oid) as [|_]; [contradiction|]. destruct (Nat.eqb_spec n iid) as [|_]; [contradiction|].
+  cbn [orb] in H. injection H as <-.
+  cbn [nodes root upd_tensors upd_nodes set_root add_def] in *.
+  clear Hin1 Hin2 Hon1 Hon2.
+  match type of Hfw with fresh_wires ?a ?b = _ => pose proof (fresh_wires_nodes b a) as Hfw' end. rewrite Hfw in Hfw'. cbn [fst] in Hfw'.
+  destruct Hfw' as [Hn2 _]. rewrite Hn2 in Hl1.
+  destruct (access_nodes _ _ _ _ _ Hacc) as (Hn1 & _ & _). rewrite Hn1 in Hl1.
+  assert (Hbase : forall k, k <> n -> k <> oid -> k <> iid ->
+            aget k (aset iid in2 (aset oid on2 (aset n nd (nodes s)))) = aget k (nodes s)).
+  { intros k H1 H2 H3. rewrite !aget_aset_other by assumption. reflexivity. }
+  pose proof (NoDup_app_r _ _ Hnd) as Hndi. pose proof (NoDup_app_l _ _ Hnd) as Hndo.
+  repeat split.
+  - intros x xn Hx Hxn.
+    assert (x <> n /\ x <> oid /\ x <> iid) as (X1 & X2 & X3).
+    { repeat split; intros ->; [apply Hn|apply Hoid|apply Hiid]; apply in_or_app; left; exact Hx. }
+    destruct (risn_hit _ _ _ _ _ x xn Hndo Hx Hl1) as (xn' & Hr & Hg); [rewrite Hbase; assumption|].
+    exists xn'. split; [exact Hr|]. rewrite aget_adel_other by exact X1.
+    rewrite (risn_other _ _ _ _ _ _ Hl2); [exact Hg|].
+    intros Hxi. revert Hnd Hx Hxi. clear. intros Hnd Hx Hxi.
+    induction (find_all_neighbour_ids o) as [|h t IH]; [destruct Hx|]. cbn in Hnd. inversion Hnd; subst.
+    destruct Hx as [->|Hx]; [apply H1; apply in_or_app; right; exact Hxi|auto].
+  - intros x xn Hx Hxn.
+    assert (x <> n /\ x <> oid /\ x <> iid) as (X1 & X2 & X3).
+    { repeat split; intros ->; [apply Hn|apply Hoid|apply Hiid]; apply in_or_app; right; exact Hx. }
+    assert (Hxo : ~ In x (find_all_neighbour_ids o)).
+    { intros Hxo. revert Hnd Hx Hxo. clear. intros Hnd Hx Hxo.
+      induction (find_all_neighbour_ids o) as [|h t IH]; [destruct Hxo|]. cbn in Hnd. inversion Hnd; subst.
+      destruct Hxo as [->|Hxo]; [apply H1; apply in_or_app; right; exact Hx|auto]. }
+    destruct (risn_hit _ _ _ _ _ x xn Hndi Hx Hl2) as (xn' & Hr & Hg).
+    { rewrite (risn_other _ _ _ _ _ _ Hl1 Hxo). rewrite Hbase; assumption. }
+    exists xn'. split; [exact Hr|]. rewrite aget_adel_other by exact X1. exact Hg.
+  - intros k K1 K2 K3 K4. rewrite aget_adel_other by exact K1.
+    rewrite (risn_other _ _ _ _ _ _ Hl2) by (intros Hx; apply K4; apply in_or_app; right; exact Hx).
+    rewrite (risn_other _ _ _ _ _ _ Hl1) by (intros Hx; apply K4; apply in_or_app; left; exact Hx).
+    apply Hbase; assumption.
 Qed.
